@@ -221,10 +221,13 @@ impl<F: Float + SampleUniform + std::fmt::Debug, T: Hash, H: Hasher + Default>
                 // update of signature of rank j
                 let j_2 = cmp::min(self.hsketch[self.p[j]].to_usize().unwrap(), m - 1);
                 self.hsketch[self.p[j]] = rpj;
-                if j < j_2 {
+                // with f32, r + j can be rounded up to j + 1 : the counter must be updated at the rank that will be read back
+                // from the stored value (j_2 above), otherwise b and a_upper get inconsistent and sketch depends on insertion order.
+                let j_1 = cmp::min(rpj.to_usize().unwrap(), m - 1);
+                if j_1 < j_2 {
                     // we can decrease counter of upper parts of b and update upper
                     self.b[j_2] -= 1;
-                    self.b[j] += 1;
+                    self.b[j_1] += 1;
                     while self.b[self.a_upper] == 0 {
                         self.a_upper -= 1;
                     } // end if j < j_2
